@@ -478,6 +478,18 @@ theorem remember_before_identify_not_revoked (env : Env) (hH : env.H.WellSized) 
   simp only [runOps, step, hst, hid]
   exact hfin rfl
 
+/-! ## 6b. History independence across requests (remark)
+
+`identify env cfg req st` is a function of the hash, the helper's configuration, the request (cookie value, client
+address, `now`, clock) and the PER-REQUEST bookkeeping `st` (the two `_authtkt_*` flags, fresh for every request): the
+model has no helper-level state argument, so every theorem above holds for every request of every history — in
+particular the same cookie value presented again from another address (`include_ip`), after its expiry, or after an
+edited variant was seen, is judged exactly as if the helper were new.  That the REAL helper has no such hidden state is
+not a Lean statement: it is the oracle clause "same answer as a fresh helper of the same configuration" which
+harness/c09.py evaluates on multi-request histories against one long-lived `AuthTktCookieHelper` (random histories, and
+all sequences of ≤ 3 requests over 7 request kinds × 4 configurations), and every request of such a history is also
+compared with this model. -/
+
 /-! ## 7. Cookie attributes -/
 
 /-- **cookie_domains_spec** (full): the `Domain` of every issued or deleting cookie is the configured `domain` if
